@@ -6,6 +6,12 @@ props = [json.loads(l) for l in open(os.path.join(ROOT, "properties.jsonl"))]
 REG_NOTE = "Small-scope hypothesis (3 identities exhaustively, <=12 in random universes); the harness's runtime-configurable Node<I> types stand in for arbitrary user TypeInfo impls; TLC, the harness projection and serde_json are trusted."
 REG_TECH = "TLA+ Registry spec (explicit recursion): TLC bounded-exhaustive design check, every terminal behaviour replayed on the real Registry, TLC trace validation of random universes under the property's own acceptor"
 CLAIMED = {
+ "C10": dict(cat="model_checking", ref="5/C10", tech="TLA+ Retain spec (step-for-step model of retain_type): TLC exhaustive over all small graphs x all filters, every behaviour replayed on the real retain, TLC re-runs the spec on recorded real calls",
+      text="The algorithm of retain is modelled action by action on concrete registry entries; the statement of C10 (DoneOK), PlaceholderNeverRead and termination are model-checked over every graph on 3 nodes (thorough: 4) x every filter; all 17.5k behaviours are replayed on the real code comparing returned map and full result; random well-formed registries (all kinds, <=12 entries) and retain-of-retain outputs are validated by TLC running the specification on the recorded input.",
+      note="Premise: well-formed input, pure filter. Small-scope hypothesis. TLC, harness projection and serde_json trusted."),
+ "C18": dict(cat="model_checking", ref="5/C18", tech="TLA+ Paths spec (identifier DFA + path operators): TLC exhaustive over class strings / segment lists / replacement tables, replayed on the real Path API; TLC validation of random unicode traces",
+      text="The identifier language is specified as a DFA and declaratively; TLC checks they agree on every string up to length 6 (thorough 7) over 8 character classes and emits each as a conformance case run (with three concretisations) through Path::from_segments; all segment lists x replacement tables are run through from_segments/new/new_with_replace/ident/namespace/Display; random unicode strings are recorded and validated.",
+      note="Assumes validity depends on a character only through its class; harness classify() trusted."),
  "C01": dict(cat="model_checking", tech=REG_TECH, ref="5/C01", note=REG_NOTE,
       text="Registry/Builder/retain producers modelled in TLA+; TLC checks dense+closed at every quiescent state of every universe/history in the bound; all 59k terminal behaviours are replayed on the real Registry and the real result is checked dense, closed and resolvable by label; random real executions (register_type/register_types/map_into_portable, From<Registry>, resolve probes) are validated by TLC with WellFormed evaluated on every observed registry."),
  "C02": dict(cat="model_checking", tech=REG_TECH, ref="5/C02", note=REG_NOTE,
